@@ -51,3 +51,8 @@ ASSUMPTIONS = ["schwimmbad pool.map(f, tasks) == [f(t) for t in tasks] in task o
                "numpy SeedSequence.spawn(n) returns n fresh children keyed by the parent's spawn counter",
                "pytables open_file(mode='r') does not modify the file; Table.shape[0] is the number of rows"]
 NOT_DECIDED = []
+
+
+def EXTRA():
+    from . import chain as _CHX
+    return _CHX.frame_effects(PROPERTY)
